@@ -74,6 +74,10 @@ type rapidContext struct {
 	initCachingEnabled       bool
 	credentialsService       core.CredentialsService
 	handlerExecutionMutex    sync.Mutex
+	// eventHandlingMutex makes the handling of one supervisor event atomic with respect to the
+	// generation change and the state clearing of a reset: an event is either handled completely
+	// before the state of its generation is cleared, or recognised as belonging to a previous one.
+	eventHandlingMutex sync.Mutex
 	shutdownContext          *shutdownContext
 	logStreamName            string
 
@@ -231,12 +235,15 @@ func (c *rapidContext) watchEvents(events <-chan supvmodel.Event) {
 		}
 		termination := event.Event.ProcessTerminated()
 
+		c.eventHandlingMutex.Lock()
+
 		// A process of a previous generation whose exit was not collected within the
 		// shutdown grace period is reported late. It says nothing about the processes
 		// of the current generation and must not fail or cancel it.
 		if c.isFromPreviousGeneration(*termination.Name) {
 			log.Warnf("Process %s of a previous generation exited: %+v", *termination.Name, termination)
 			c.shutdownContext.handleLateProcessExit(*termination.Name)
+			c.eventHandlingMutex.Unlock()
 			continue
 		}
 
@@ -274,6 +281,7 @@ func (c *rapidContext) watchEvents(events <-chan supvmodel.Event) {
 		// When their are other event types then we would need to be selective,
 		// about what we send to handleShutdownEvent().
 		c.shutdownContext.handleProcessExit(*termination)
+		c.eventHandlingMutex.Unlock()
 	}
 }
 
@@ -318,7 +326,9 @@ func doRuntimeDomainInit(execCtx *rapidContext, sbInfoFromInit interop.SandboxIn
 		}
 	}()
 
+	execCtx.eventHandlingMutex.Lock()
 	execCtx.runtimeDomainGeneration++
+	execCtx.eventHandlingMutex.Unlock()
 
 	if extensions.AreEnabled() {
 		runtimeExtensions := agents.ListExternalAgentPaths(defaultAgentLocation,
@@ -721,6 +731,8 @@ func handleInvoke(execCtx *rapidContext, invokeRequest *interop.Invoke, sbInfoFr
 }
 
 func reinitialize(execCtx *rapidContext) {
+	execCtx.eventHandlingMutex.Lock()
+	defer execCtx.eventHandlingMutex.Unlock()
 	execCtx.appCtx.Delete(appctx.AppCtxInvokeErrorTraceDataKey)
 	execCtx.appCtx.Delete(appctx.AppCtxRuntimeReleaseKey)
 	execCtx.appCtx.Delete(appctx.AppCtxFirstFatalErrorKey)
@@ -776,7 +788,9 @@ func handleReset(execCtx *rapidContext, resetEvent *interop.Reset, runtimeStarte
 
 	extensionsResetMs, resetTimeout, _ := execCtx.shutdownContext.shutdown(execCtx, resetEvent.DeadlineNs, resetEvent.Reason)
 
+	execCtx.eventHandlingMutex.Lock()
 	execCtx.runtimeDomainGeneration++
+	execCtx.eventHandlingMutex.Unlock()
 
 	// Only used by standalone for more indepth assertions.
 	var fatalErrorType fatalerror.ErrorType
